@@ -54,7 +54,7 @@ pub struct Scenario {
     pub blobs: Vec<(String, Vec<u8>)>,
 }
 
-fn glyph_keyed_patch(mut header: BeBuffer, payload: BeBuffer) -> Vec<u8> {
+pub fn glyph_keyed_patch(mut header: BeBuffer, payload: BeBuffer) -> Vec<u8> {
     // uncompressed body (the Noop decoder passes it through)
     header.write_at("max_uncompressed_length", payload.len() as u32);
     let mut v = header.as_slice().to_vec();
@@ -219,7 +219,7 @@ pub fn scenarios() -> Vec<Scenario> {
     out.into_iter().map(with_base_blobs).collect()
 }
 
-fn build_font(base: &Base, blobs: &[(String, Vec<u8>)]) -> Vec<u8> {
+pub fn build_font(base: &Base, blobs: &[(String, Vec<u8>)]) -> Vec<u8> {
     let mut fb = FontBuilder::new();
     for (name, data) in blobs {
         if name == "IFT " || name == "IFTX" {
